@@ -6,6 +6,8 @@ One logical step = one scheduling decision.  Every choice comes from the
 
 from __future__ import annotations
 
+import re
+
 import numpy as np
 
 from dask._task_spec import Alias, DataNode, convert_legacy_graph
@@ -20,6 +22,52 @@ STEP_CAP = 50_000
 
 def keyrepr(k):
     return repr(k)
+
+
+_HEX = re.compile(r"[0-9a-f]{8,}")
+
+
+class KeyOrder:
+    """Ordering and naming of graph keys that does not depend on the TEXT of volatile name parts
+    (uuid tokens of lock=True / untokenizable sources, ``id()`` of a store target): names are ranked by
+    first appearance in the graph's own iteration order, which is a function of how the program was
+    built.  Everything the simulator sorts, records or replays goes through here, so one seed is one
+    schedule even when names differ from process to process."""
+
+    def __init__(self, graph):
+        self.rank = {}
+        for k in graph:
+            self.rank.setdefault(self._name(k), len(self.rank))
+
+    @staticmethod
+    def _name(k):
+        return k[0] if isinstance(k, tuple) and k else k
+
+    def sort(self, k):
+        n = self._name(k)
+        rest = k[1:] if isinstance(k, tuple) else ()
+        return (self.rank.get(n, len(self.rank)), len(rest), tuple(r if isinstance(r, int) else -1 for r in rest), repr(rest))
+
+    def cname(self, k):
+        n = self._name(k)
+        rest = k[1:] if isinstance(k, tuple) else ()
+        base = _HEX.sub("", n) if isinstance(n, str) else type(n).__name__
+        return f"{base}#{self.rank.get(n, len(self.rank))}{list(rest) if rest else ''}"
+
+    def priorities(self, g, deps):
+        """dask.order priorities computed on a surrogate graph with canonical names (dask.order breaks
+        ties by key text)."""
+        from dask._task_spec import Task, TaskRef
+        from dask.order import order
+
+        ck = {k: (f"n{self.rank.get(self._name(k), len(self.rank)):06d}",) + (tuple(k[1:]) if isinstance(k, tuple) else ()) for k in g}
+        sur = {ck[k]: Task(ck[k], _noop, *[TaskRef(ck[d]) for d in deps[k]]) for k in g}
+        pr = order(sur)
+        return {k: pr[ck[k]] for k in g}
+
+
+def _noop(*a):
+    return None
 
 
 class Sim:
@@ -78,13 +126,14 @@ class Sim:
 
     def run(self, dsk, keys):
         g = convert_legacy_graph(dict(dsk))
+        ko = self.ko = KeyOrder(g)
         wanted = set(_flatten(keys))
-        for k in sorted(wanted, key=keyrepr):
+        for k in sorted(wanted, key=ko.sort):
             if k not in g:
                 raise UnexecutableGraph(f"requested key {k!r} not in graph")
         # like every real scheduler, run only what the requested keys need
         reach = set()
-        stack = sorted(wanted, key=keyrepr)
+        stack = sorted(wanted, key=ko.sort)
         while stack:
             k = stack.pop()
             if k in reach:
@@ -100,8 +149,8 @@ class Sim:
             g = {k: g[k] for k in g if k in reach}
         self.graph_size = len(g)
         deps = {}
-        for k in sorted(g, key=keyrepr):
-            deps[k] = sorted(g[k].dependencies, key=keyrepr)
+        for k in sorted(g, key=ko.sort):
+            deps[k] = sorted(g[k].dependencies, key=ko.sort)
         dependents = {k: [] for k in deps}
         for k, d in deps.items():
             for x in d:
@@ -110,9 +159,7 @@ class Sim:
         remaining_users = {k: len(set(v)) for k, v in dependents.items()}
         prio = None
         if self.policy in ("order", "rorder"):
-            from dask.order import order
-
-            prio = order(g)
+            prio = ko.priorities(g, deps)
         ready = [k for k in deps if waiting[k] == 0]  # already repr-sorted
         starved = None
         if self.policy == "starve" and len(ready) > 1:
@@ -128,7 +175,7 @@ class Sim:
                     raise HarnessError("schedsim step cap exceeded")
                 i = self._pick(ready, prio, starved)
                 k = ready.pop(i)
-                self.order.append(keyrepr(k))
+                self.order.append(ko.cname(k))
                 node = g[k]
                 self._run_task(k, node, deps[k], cache)
                 done += 1
@@ -136,7 +183,7 @@ class Sim:
                     waiting[u] -= 1
                 if self.keep_all:
                     self.values[k] = cache[k]
-                newly = sorted({u for u in dependents[k] if waiting[u] == 0}, key=keyrepr)
+                newly = sorted({u for u in dependents[k] if waiting[u] == 0}, key=ko.sort)
                 # a dependent can appear twice in dependents[k] only if deps listed twice; set() guards
                 for u in newly:
                     waiting[u] = -1
@@ -160,11 +207,11 @@ class Sim:
             if self.decisions_in:
                 want = self.decisions_in.pop(0)
                 for i, k in enumerate(ready):
-                    if keyrepr(k) == want:
+                    if self.ko.cname(k) == want:
                         self.decisions.append(want)
                         return i
             # recorded decision not applicable any more: fall back to fifo
-            self.decisions.append(keyrepr(ready[0]))
+            self.decisions.append(self.ko.cname(ready[0]))
             return 0
         p = self.policy
         if n == 1:
@@ -184,11 +231,11 @@ class Sim:
             i = cand[self.rng.randrange(len(cand))] if cand else 0
         else:
             raise HarnessError(f"unknown policy {p}")
-        self.decisions.append(keyrepr(ready[i]))
+        self.decisions.append(self.ko.cname(ready[i]))
         return i
 
     def _run_task(self, k, node, dlist, cache):
-        fakes.CURRENT["task"] = keyrepr(k)
+        fakes.CURRENT["task"] = self.ko.cname(k)
         fakes.CURRENT["step"] = self.steps
         args = cache
         uniq = []
